@@ -874,6 +874,11 @@ func (s *Stream) handshake(addr string, headers []Header, callback func(err erro
 			if err == nil {
 				err = s.upgrade(url, stream, headers)
 			}
+			if err != nil {
+				// Do not leave the connection half-open when the transport could not be adapted or the upgrade
+				// failed: the caller only gets an error and a terminated stream.
+				_ = s.CloseNextLayer()
+			}
 			callback(err, stream)
 		})
 	}
